@@ -201,6 +201,19 @@ def _real_tables_case(case, tier, seed):
                 diff = {str(a): (got.atoms.get(a), c) for a, c in want.atoms.items() if got.atoms.get(a) != c}
                 res['violations'].append(dict(case=case.name, claim='prefix_equals_sequence[%s:%s]' % (tname, text), values={},
                                               observed=[repr(diff)[:200], repr((got.density, want.density))], how='concrete'))
+    # ... and keeps doing so after an earlier result has been modified in place (chain terminations, a new density)
+    for tname, text in (('aa', 'ACD'), ('dna', 'ACGT'), ('rna', 'ACGU')):
+        res['claims'] += 1
+        first = formulas.formula('%s:%s' % (tname, text))
+        first += formulas.formula('H[1]2O')
+        first.density = 9.75
+        again = formulas.formula('%s:%s' % (tname, text))
+        want = fasta.Sequence(None, text, type=tname).labile_formula
+        if again is not first and dict(again.atoms) == dict(want.atoms) and again.density == want.density:
+            res['discharged'] += 1
+        else:
+            res['violations'].append(dict(case=case.name, claim='prefix_result_is_fresh[%s:%s]' % (tname, text), values={},
+                                          observed=[repr((dict(again.atoms), again.density))[:200], repr((dict(want.atoms), want.density))[:200]], how='concrete'))
     res['queries'] = res['distinct'] = res['claims']
     res['samples'] = [dict(checked_codes=res['claims'])]
     res['violations'] = res['violations'][:5]
